@@ -25,7 +25,7 @@ META = {
 }
 REQUIRED = ["lookup_agrees", "len_eq_card", "range_visits_each_once", "keys_nodup",
             "search_correct_of_BST", "rotate_preserves_inorder", "rotate_right_preserves_inorder", "insert_path_refines_spec",
-            "delete_refines_spec_false", "witness_pinned_behaviour", "witness_fixed_behaviour"]
+            "delete_slots_refine", "delete_refines_spec_false", "witness_pinned_behaviour", "witness_fixed_behaviour"]
 
 HEX = "0123456789abcdef"
 VS = ["v%d" % i if i % 3 else "w" * (i % 7 + 1) + str(i) for i in range(61)]     # string values (all non-empty)
